@@ -190,6 +190,10 @@ func shapeCorners() []*Case {
 			mk(route, func(k *Case) { k.J.URL = "other" }),
 			mk(route, func(k *Case) { k.J.URL = "absent" }),
 			mk(route, func(k *Case) { k.J.URL = "nonstring" }),
+			mk(route, func(k *Case) { k.J.URL = "case-id" }),
+			mk(route, func(k *Case) { k.J.URL = "case-path" }),
+			mk(route, func(k *Case) { k.J.URL = "case-scheme" }),
+			mk(route, func(k *Case) { k.J.URL = "case-host" }),
 			mk(route, func(k *Case) { k.J.KeyMode = "both" }),
 			mk(route, func(k *Case) { k.J.KeyMode = "neither" }),
 			mk(route, func(k *Case) { k.J.KeyMode = "jwk" }),
@@ -264,7 +268,7 @@ func genShape(r *c.Rng) *Case {
 		case 4:
 			k.J.Nonce = c.Pick(r, []string{"reused", "foreign", "empty", "absent", "otherprov"})
 		case 5:
-			k.J.URL = c.Pick(r, []string{"other", "absent", "nonstring"})
+			k.J.URL = c.Pick(r, []string{"other", "absent", "nonstring", "case-id", "case-id", "case-path", "case-scheme", "case-host"})
 		case 6:
 			k.J.KeyMode = c.Pick(r, []string{"kid", "jwk", "both", "neither"})
 		case 7:
